@@ -16,7 +16,8 @@ import common
 import lib
 import runner
 
-SALT = ["\t", "\"", "\\", "\u0001", "\u001f", "é", "日本", "𝄞", "/", " ", "a\tb", "\\n", "{}", " "]
+SALT = ["\t", "\"", "\\", "\u0001", "\u001f", "é", "日本", "𝄞", "/", " ", "a\tb", "\\n", "{}", " ",
+        "\U00020BB7", "\U000E0041", "\U0010FFFD", "\uFFFD", "\u2028"]
 
 
 def salt(doc, rnd, rate=0.25):
@@ -28,6 +29,10 @@ def salt(doc, rnd, rate=0.25):
             return {k: walk(v) for k, v in x.items()}
         if isinstance(x, str) and x.startswith("^") and len(x) > 1 and rnd.random() < rate:
             return x + rnd.choice(SALT)
+        if isinstance(x, int) and not isinstance(x, bool) and rnd.random() < 0.15:
+            return -abs(x) - rnd.randint(1, 3)      # negative integer literals
+        if isinstance(x, float) and rnd.random() < 0.3:
+            return -x
         return x
     d = dict(doc)
     d["root"] = walk(doc["root"])
